@@ -79,6 +79,34 @@ def template_mentions(unit, pid):
     return walk(os.path.join(ROOT, 'units', unit + '.vrs'))
 
 
+# Shared include files are verified in every unit that includes them; their obligations are OWNED (counted, and
+# used for selecting units) by one unit only.
+OWNER = {
+    'units/inc/types.vrs': 'base', 'units/inc/errors.vrs': 'base', 'units/inc/codec_traits.vrs': 'base',
+    'units/inc/base_impls.vrs': 'base', 'units/inc/props_impls.vrs': 'base', 'standins/verus/bytes_io.vrs': 'base',
+    'standins/verus/ext.vrs': 'context',
+    'units/inc/vbi_parse.vrs': 'codec_rx', 'units/inc/rx_traits.vrs': 'codec_rx', 'units/inc/rx_base.vrs': 'codec_rx',
+    'units/inc/rx_props.vrs': 'codec_rx',
+    'units/inc/tx_common.vrs': 'codec_tx', 'units/inc/tx_ack.vrs': 'codec_ack', 'units/inc/tx_pingreq.vrs': 'codec_ack',
+    'units/inc/tx_publish.vrs': 'codec_tx',
+    'units/inc/keys.vrs': 'context', 'units/inc/handle_specs.vrs': 'handle', 'units/inc/context_specs.vrs': 'context',
+    'units/inc/contracts/rx_action_id.c': 'utils', 'units/inc/contracts/tx_action_id.c': 'utils',
+    'units/inc/contracts/linear_search_by_key.c': 'utils',
+}
+
+
+def owned_tags(unit_name, unit):
+    """tags of the assembled unit that this unit owns: (line, props, name, status)"""
+    out = []
+    for (ln, props, name, st) in tags_in_text(unit.text()):
+        o = unit.origin[ln - 1] if ln - 1 < len(unit.origin) else None
+        f = o[1] if o and o[0] == 'tpl' else None
+        if f in OWNER and OWNER[f] != unit_name:
+            continue
+        out.append((ln, props, name, st))
+    return out
+
+
 _ASSEMBLED = {}
 
 
@@ -98,7 +126,7 @@ def units_for(pid, repo):
         except (AnchorLost, Unsupported, LookupError, ValueError) as e:
             bad.append('%s: %s: %s' % (u, type(e).__name__, e))
             continue
-        tg = tags_in_text(unit.text())
+        tg = owned_tags(u, unit)
         if pid == 'C04' or any(pid in props and st == 'checked' for _, props, _, st in tg):
             res.append(u)
     return res, bad
@@ -288,7 +316,7 @@ def main():
             trusted.add('%s: %s' % (un, t))
         for (fa, fb, nm, qn, rel, sl) in u.fns:
             fns_under_contract.append('%s::%s' % (rel, qn))
-        for (ln, props, name, st) in tags_in_text(u.text()):
+        for (ln, props, name, st) in owned_tags(un, u):
             if pid in props and st == 'checked':
                 obligations.append('%s/%s' % (un, name))
             elif pid in props:
@@ -348,7 +376,7 @@ def main():
             fal = run_falsifier(pid, name, a.repo)
             fh.write('\n--- native replay on the real crate ---\n%s\n' % fal[1])
         suffix = '' if fal[0] else ' no-failing-input-found'
-        print('VIOLATION property=%s replay=%s obligation=%s%s' % (pid, rp, name, suffix))
+        print('VIOLATION property=%s replay=%s obligation=%s site=%s%s' % (pid, rp, name, site_key(site), suffix))
 
     # ---- bounded cross-check: native replays of this property on the real crate -----------------------
     replays = run_replays(pid, a.repo)
